@@ -93,6 +93,12 @@ reg('C15', 'exhaustive operator-skeleton enumeration × 3 syntaxes + Hypothesis 
     'indentation must equal the tree an independent lexer recovers from the HTML output of the same abbreviation.',
     'ids are written before classes; text-only items are excluded as in the quantifier; attribute values are single-line.')
 
+reg('C13', 'recording callbacks checked against the final string (invariant over every invocation) + reference tabstop-numbering model + exhaustive alias-table sweep with an independent lexer',
+    'Every output.field/output.text invocation of every run (Hypothesis abbreviations with explicit fields, aliases, wrap text; 9 markup syntaxes and 5 stylesheet syntaxes; LF/CRLF/CR, indent, baseIndent; four callback '
+    'flavours incl. length-changing ones) must report the offset/line/column at which its return value really lies in the result. Tabstop numbering is compared exactly with a reference renderer (marking callback) for '
+    'html-family syntaxes and as index sequence for haml/pug/slim; every key of the html/xsl tables is swept for colliding index ranges.',
+    'Callbacks do not return line breaks and leave newline/baseIndent strings unchanged; elements whose text has explicit fields have no children.')
+
 NOT_APPLICABLE = [
 ]
 
